@@ -2,7 +2,7 @@ import RedunModel.Proto
 import RedunModel.Model.Monitor
 open RedunModel RedunModel.Monitor
 
-/- request: `run <docker|batch|k8s|gcp|glue> <arrayer max_array_size, i0 = unbounded> (<job id>*) (<S | A | (M k) | (U k)>*)`   (ints as i<n>)
+/- request: `run <docker|batch|k8s|gcp|glue> <arrayer max_array_size, i0 = unbounded> (<job id>*) (<S | A | F | (M k) | (U k)>*)`   (F = the environment arms one transient cloud error)   (ints as i<n>)
    reply:   per schedule letter `(<label executed> <state after>)` or `blocked`, separated by ` | `,
             then ` | (final <state>)`.
    state ::= (flag T|F) (pend (ids)) (queue (ids)) (arr T|F) (rep (ids)) (crash n) (hit T|F) (S <lbl>|-)
@@ -23,11 +23,12 @@ def showState (V : Variant) (s : State) : String :=
     | .unstarted => "new" | .dead => "dead" | _ => lblStr (labelM V m))
   let subs := " ".intercalate (s.subs.map fun u => match u.ph with
     | .unstarted => "new" | .dead => "dead" | _ => lblStr (labelU V u))
-  s!"(flag {tf s.flag}) (pend {ids s.pending}) (queue {ids s.queue}) (arr {tf s.arrAlive}) (rep {ids s.reported}) (crash {atomOfInt (Int.ofNat s.crashes)}) (num {atomOfInt (Int.ofNat s.queue.length)}) (hit {tf s.hit}) (S {lblStr (labelS V s)}) (mons {mons}) (subs {subs}) (lost {ids (lost s)})"
+  s!"(flag {tf s.flag}) (pend {ids s.pending}) (queue {ids s.queue}) (arr {tf s.arrAlive}) (rep {ids s.reported}) (crash {atomOfInt (Int.ofNat s.crashes)}) (num {atomOfInt (Int.ofNat s.queue.length)}) (armed {tf s.armed}) (hit {tf s.hit}) (S {lblStr (labelS V s)}) (mons {mons}) (subs {subs}) (lost {ids (lost s)})"
 
 def parseEv : Sexp → Option Ev
   | .atom "S" => some .S
   | .atom "A" => some .A
+  | .atom "F" => some .F
   | .list [.atom "M", .atom k] => (natOfAtom k).map .M
   | .list [.atom "U", .atom k] => (natOfAtom k).map .U
   | _ => none
@@ -37,6 +38,7 @@ def execLabel (V : Variant) (s : State) : Ev → Option Lbl
   | .M k => (s.mons[k]?).bind (labelM V)
   | .U k => (s.subs[k]?).bind (labelU V)
   | .A => some 0
+  | .F => none
 
 def runTrace (V : Variant) : State → List Ev → List String → List String
   | s, [], acc => (s!"(final {showState V s})" :: acc).reverse
